@@ -74,13 +74,18 @@ def getattr(I, st, v, name):
             m, where = I.class_lookup(e.cls, name)
             from .values import PropertyVal
 
-            if name not in e.attrs and st.ghost:
+            if st.ghost and (name not in e.attrs or _ghost_data_descriptor(I, st, e.cls, name)):
                 # a class attribute rebound at run time (Cls.attr = value) is what instances see, nearest class first
                 for c in I.mro(e.cls):
                     if isinstance(c, ClassVal) and ("classattr", id(c.node), name) in st.ghost:
                         gv = st.ghost[("classattr", id(c.node), name)]
                         if isinstance(gv, (FuncVal, PropertyVal)):
                             raise Unsupported("method/property %s rebound on a class at run time" % name)
+                        dg = _descriptor_method(I, st, gv, "__get__")
+                        if dg is not None:
+                            # descriptor protocol: type(obj).attr.__get__(obj, type(obj))
+                            yield from I.call(dg, [gv, v, e.cls], {}, st)
+                            return
                         yield st, gv
                         return
                     if where is not None and c == where:
@@ -132,6 +137,14 @@ def getattr(I, st, v, name):
     if isinstance(v, ObjDict):
         yield st, objdict_method(I, st, v, name)
         return
+    if isinstance(v, RePattern) and name in ("match", "fullmatch", "search"):
+        def _rx(I, st, a, k):
+            if len(a) != 1 or not isinstance(a[0], str):
+                raise Unsupported("regular expression applied to a symbolic string")
+            yield st, (ReMatch() if _b.getattr(v.rx, name)(a[0]) is not None else None)
+
+        yield st, bi("re.Pattern." + name, _rx)
+        return
     if isinstance(v, ModuleVal):
         yield st, module_attr(I, st, v, name)
         return
@@ -180,6 +193,12 @@ def getattr(I, st, v, name):
                     if isinstance(g, PropertyVal) or (isinstance(g, FuncVal) and "property" in g.decorators()) or (
                             isinstance(g, Ref) and st.get(g).kind == "obj" and I.class_lookup(st.get(g).cls, "__set__")[0] is not None):
                         raise Unsupported("object.__setattr__ on a property/descriptor attribute")
+                    gv = _ghost_class_attr(I, st, st.get(obj).cls, nm)
+                    ds = _descriptor_method(I, st, gv, "__set__") if gv is not None else None
+                    if ds is not None:
+                        for st1, r in I.call(ds, [gv, obj, val], {}, st):
+                            yield st1, (r if isinstance(r, Exc) else None)
+                        return
                 yield from setattr(I, st, obj, nm, val, raw=True)
 
             yield st, bi("object.__setattr__", _osa)
@@ -324,6 +343,32 @@ def getattr(I, st, v, name):
     raise Unsupported("attribute %s of %r" % (name, v))
 
 
+def _descriptor_method(I, st, val, which):
+    """`which` (__get__/__set__/__delete__) of a store object used as a class attribute, or None"""
+    if isinstance(val, Ref) and st.get(val).kind == "obj":
+        m, _ = I.class_lookup(st.get(val).cls, which)
+        return m
+    return None
+
+
+def _ghost_class_attr(I, st, cls, name):
+    """value of a class attribute rebound at run time that an instance of cls sees (nearest class first), else None"""
+    if not st.ghost:
+        return None
+    _, where = I.class_lookup(cls, name)
+    for c in I.mro(cls):
+        if isinstance(c, ClassVal) and ("classattr", id(c.node), name) in st.ghost:
+            return st.ghost[("classattr", id(c.node), name)]
+        if where is not None and c == where:
+            return None
+    return None
+
+
+def _ghost_data_descriptor(I, st, cls, name):
+    gv = _ghost_class_attr(I, st, cls, name)
+    return gv is not None and _descriptor_method(I, st, gv, "__set__") is not None
+
+
 def class_attr_for_instance(I, st, inst, cls, name):
     m, where = I.class_lookup(cls, name)
     if m is None and where is not None:
@@ -415,6 +460,12 @@ def setattr(I, st, obj, name, v, raw=False):
             m, _ = I.class_lookup(e.cls, name + ".setter")
             if m is not None:
                 for st1, r in I.call(m, [obj, v], {}, st):
+                    yield st1, (r if isinstance(r, Exc) else None)
+                return
+            gv = _ghost_class_attr(I, st, e.cls, name)
+            ds = _descriptor_method(I, st, gv, "__set__") if gv is not None else None
+            if ds is not None:
+                for st1, r in I.call(ds, [gv, obj, v], {}, st):
                     yield st1, (r if isinstance(r, Exc) else None)
                 return
             g, _ = I.class_lookup(e.cls, name)
@@ -1423,6 +1474,16 @@ def make_builtins(I):
 
     add("setattr", _setattr)
 
+    def _delattr(I, st, a, k):
+        if not isinstance(a[1], str):
+            raise Unsupported("delattr with symbolic name")
+        if isinstance(a[0], Ref) and st.get(a[0]).kind == "obj":
+            if I.class_lookup(st.get(a[0]).cls, "__delattr__")[0] is not None or _ghost_class_attr(I, st, st.get(a[0]).cls, a[1]) is not None:
+                raise Unsupported("delattr through __delattr__ / a descriptor")
+        yield from delattr(I, st, a[0], a[1])
+
+    add("delattr", _delattr)
+
     def _callable(I, st, a, k):
         yield st, isinstance(a[0], (FuncVal, BoundMethod, Builtin, ClassVal, BuiltinClass))
 
@@ -1486,6 +1547,20 @@ def make_builtins(I):
 
     speclib.install(I, B)
     return B
+
+
+class RePattern:
+    """re.compile(literal): match/fullmatch/search on CONCRETE strings are decided by Python's re; only the truth value
+    of the result (a match or None) is available"""
+
+    def __init__(self, pattern):
+        import re as _re
+
+        self.pattern, self.rx = pattern, _re.compile(pattern)
+
+
+class ReMatch:
+    """a successful match (truthy); its groups are not modelled"""
 
 
 class ObjDict:
@@ -1937,6 +2012,13 @@ def make_ext_modules(I):
     E["functools"] = {"partial": bi("functools.partial", lambda I, st, a, k: iter([(st, Partial(a[0], a[1:], k))])),
                       "lru_cache": bi("functools.lru_cache", lambda I, st, a, k: iter([(st, a[0] if a else Opaque("lru_cache"))]))}
     E["operator"] = {}
+
+    def re_compile(I, st, a, k):
+        if not isinstance(a[0], str) or k or len(a) > 1:
+            raise Unsupported("re.compile of a non-literal pattern / with flags")
+        yield st, RePattern(a[0])
+
+    E["re"] = {"compile": bi("re.compile", re_compile)}
     E["warnings"] = {"warn": bi("warnings.warn", lambda I, st, a, k: iter([(st, None)]))}
 
     from . import npmodel, bytesmodel
